@@ -529,7 +529,15 @@ class StubSimulation(object):
         def f(t, pace, y, cc):
             return np.array(c.rhs(t, pace, y, cc)[0])
 
+        work = [0]
+
         def aug(t, z, pace):
+            work[0] += 1
+            if work[0] > 20000:
+                # CVODES gives up after mxstep internal steps; so does the
+                # stand-in (a singular / exploding solution)
+                raise myokit.SimulationError(
+                    'stub: too much work (singular or exploding solution)')
             y = z[:n]
             dy = f(t, pace, y, cvec)
             if not sens:
